@@ -137,6 +137,17 @@ class Evaluator:
         finally:
             self.depth -= 1
 
+    def eval_closure(self, node, args, env=None):
+        """evaluate a HIR closure node (`|params| body`) on concrete arguments"""
+        e2 = dict(env or {})
+        for p, a in zip(node["params"], args):
+            if not self.bind(p, a, e2):
+                raise Undecided("closure parameter pattern does not bind")
+        try:
+            return self.eval(node["body"], e2)
+        except Return as r:
+            return r.v
+
     # ---- patterns
     def bind(self, p, v, env):
         """match pattern p against value v, binding into env; returns bool"""
